@@ -109,7 +109,7 @@ fn parse_digits(value: &str) -> Result<Vec<u64>, String> {
             _ => return Err(format!("Invalid character '{c}'")),
         };
         #[allow(clippy::cast_lossless)]
-        if digit > base as u64 {
+        if digit >= base as u64 {
             return Err(format!(
                 "Invalid digit {c} in base {base} (did you forget the `0x` prefix?)"
             ));
